@@ -117,7 +117,9 @@ def gen_scenario(r, max_cells, entry=None):
         sc["density"] = r.choice([None, None, True, False])
         return sc
     sc["dtype"] = r.choice([None, None, "float"]) if entry in ("mean", "var", "std", "sum", "nanmean", "nanvar", "nanstd", "nansum") else None
-    cells = r.choice([1, 2, 3, 4, 7, 9, 10, 13, 27, 50, 100, 400])
+    # 100- and 400-cell queries cost seconds each (the library re-totals the whole ledger at every cell, and so does the
+    # interpreted Lean model): they stay in every run, but rarer than the small layouts
+    cells = r.choice([1, 2, 3, 4, 7, 9, 10, 13, 27, 50] * 3 + [100, 100, 400])
     cells = min(cells, max_cells)
     layout = r.choice(["scalar", "scalar", "axis0", "axis0", "axis1", "keepdims", "3d", "keepdims-all", "axis-scalar"])
     if entry in T.QUANT_TOOLS and entry != "median":
